@@ -7,34 +7,93 @@ K = f"{F}::simplify_chained_calls"
 
 def register(w):
     A = "func_adl/ast/call_stack.py::argument_stack"
+    # argument_stack: a list of dictionaries, newest frame last.  Class invariant (assumed when an
+    # instance is met, re-established by every method: the methods are the only writers of the
+    # private list): at least the bottom frame exists and every stored value is a well-formed
+    # expression of query shape.
+    INV = ["len(self._arg_transformer) >= 1", "frames_good(self._arg_transformer)"]
     C.register_class(w, {
         "key": A,
-        "state": {},
-        "properties": ["C18"],
+        "state": {"_arg_transformer": "list"},
+        "invariant": INV,
+        "properties": ["C18", "C14", "C02"],
     })
-    # the stack only ever holds what define_name was given: with the two contracts below every
-    # stored replacement is a well-formed expression of query shape (class invariant of the
-    # simplifier, whose methods are the only writers)
+    C.register(w, {
+        "key": f"{A}.__init__",
+        "self": A,
+        "params": {},
+        "raises": {},
+        "ensures": INV + ["len(self._arg_transformer) == 1",
+                          "is_empty(dict_keys(nth(self._arg_transformer, 0)))"],
+        "ret": "none",
+        "modifies": ["self._arg_transformer"],
+        "no_invariant_on_entry": True,
+        "properties": ["C18", "C14", "C02"],
+    })
+    C.register(w, {
+        "key": f"{A}.push_stack_frame",
+        "self": A,
+        "params": {},
+        "raises": {},
+        "ensures": INV + ["same(self._arg_transformer, concat(old(self._arg_transformer), [{}]))"],
+        "lemma_instances": ["lem_fg_cat(self._arg_transformer, [{}])"],
+        "ret": "none",
+        "modifies": ["self._arg_transformer"],
+        "properties": ["C18", "C14", "C02"],
+    })
+    C.register(w, {
+        "key": f"{A}.pop_stack_frame",
+        "self": A,
+        "params": {},
+        # frames are pushed and popped in pairs by stack_frame: a pop never removes the bottom frame
+        "requires": ["len(self._arg_transformer) >= 2"],
+        "raises": {},
+        "ensures": INV + ["same(self._arg_transformer, take(old(self._arg_transformer), "
+                          "len(old(self._arg_transformer)) - 1))"],
+        "lemma_instances": ["lem_fg_take(self._arg_transformer, len(self._arg_transformer) - 1)"],
+        "ret": "none",
+        "modifies": ["self._arg_transformer"],
+        "properties": ["C18", "C14", "C02"],
+    })
     C.register(w, {
         "key": f"{A}.define_name",
         "self": A,
         "params": {"name": "py", "val": "py"},
         "requires": ["good(val)"],
-        "ensures": [],
+        "raises": {},
+        # the newest frame gets the binding, nothing else changes; looking the name up afterwards
+        # gives exactly this value
+        "ensures": INV + ["len(self._arg_transformer) == len(old(self._arg_transformer))",
+                          "same(take(self._arg_transformer, len(self._arg_transformer) - 1), "
+                          "take(old(self._arg_transformer), len(old(self._arg_transformer)) - 1))",
+                          "same(lookup_rev(rev(self._arg_transformer), name, None), val)"],
+        "ghost": {"T": "take(self._arg_transformer, len(self._arg_transformer) - 1)",
+                  "X": "dict_put(nth(self._arg_transformer, len(self._arg_transformer) - 1), name, val)"},
+        "lemma_instances": ["lem_fg_take(self._arg_transformer, len(self._arg_transformer) - 1)",
+                            "lem_fg_nth(self._arg_transformer, len(self._arg_transformer) - 1)",
+                            "lem_len_take(self._arg_transformer, len(self._arg_transformer) - 1)",
+                            "lem_fg_cat(T, [X])", "lem_take_cat(T, [X])", "lem_rev_snoc(T, X, [])"],
         "ret": "none",
-        "abstract": True, "trusted": True,
-        "assumes": ["argument_stack (func_adl/ast/call_stack.py, 60 lines: a list of dicts) is not "
-                    "under contract: lookup_name returns its default or a value given to "
-                    "define_name earlier"],
-        "properties": ["C18"],
+        "modifies": ["self._arg_transformer"],
+        "properties": ["C18", "C14", "C02"],
     })
     C.register(w, {
         "key": f"{A}.lookup_name",
         "self": A,
         "params": {"name": "py", "default": "py"},
-        "ensures": ["implies(good(default), good(result))"],
-        "abstract": True, "trusted": True,
-        "properties": ["C18"],
+        "raises": {},
+        # the binding in the newest frame that defines the name, the default if none does
+        "ensures": ["same(result, lookup_rev(rev(self._arg_transformer), name, default))",
+                    "implies(good(default), good(result))",
+                    "same(self._arg_transformer, old(self._arg_transformer))"],
+        "lemma_instances": ["lem_fg_rev(self._arg_transformer, [])",
+                            "lem_lookup_good(rev(self._arg_transformer), name, default)"],
+        "loops": {0: {"invariant": ["same(lookup_rev(_rest, name, default), "
+                                    "lookup_rev(rev(self._arg_transformer), name, default))",
+                                    "frames_good(_rest)"],
+                      "hints": []}},
+        "modifies": [],
+        "properties": ["C18", "C14", "C02"],
     })
     C.register_class(w, {
         "key": "func_adl/ast/func_adl_ast_utils.py::FuncADLNodeTransformer",
@@ -45,11 +104,10 @@ def register(w):
     C.register_class(w, {
         "key": "func_adl/ast/call_stack.py::stack_frame",
         "state": {},
-        "ctor_any_args": True,
-        # push on enter / pop on exit of the argument stack: frames are balanced, and the only
-        # property the contracts use (every stored value is good) is independent of the frames
-        "with_model": "noop",
-        "properties": ["C18"],
+        # the real __init__ / __enter__ / __exit__ run wherever a `with stack_frame(...)` is met
+        # (push on enter, pop on every way out): frames are balanced by construction
+        "ctor_runs_init": True,
+        "properties": ["C18", "C14", "C02"],
     })
     C.register_class(w, {
         "key": K,
@@ -418,6 +476,26 @@ def register(w):
     from pyvc.lemmas import register_lemma
     # proj_kha is proved first; the two key_last lemmas use its instance at the tail
     hints = {"klr": ["lem_kha(tail(d), r, s)"], "kld": ["lem_kha(tail(d), r, s)"]}
+    PR = ["C18", "C14", "C02"]
+    register_lemma(w, {"name": "fg_take", "pred": "lem_fg_take", "induct": "list",
+                       "ih_pred": "lem_fg_take_ih", "fuel": 4, "properties": PR})
+    register_lemma(w, {"name": "fg_cat", "pred": "lem_fg_cat", "induct": "list", "fuel": 4,
+                       "properties": PR})
+    register_lemma(w, {"name": "fg_rev", "pred": "lem_fg_rev", "induct": "list",
+                       "ih_cons_head": ["acc"], "fuel": 4, "properties": PR})
+    register_lemma(w, {"name": "fg_nth", "pred": "lem_fg_nth", "induct": "list",
+                       "ih_pred": "lem_fg_nth_ih", "fuel": 4, "properties": PR})
+    register_lemma(w, {"name": "len_take", "pred": "lem_len_take", "induct": "list",
+                       "ih_pred": "lem_len_take_ih", "fuel": 4, "properties": PR})
+    register_lemma(w, {"name": "take_cat", "pred": "lem_take_cat", "induct": "list", "fuel": 4,
+                       "properties": PR})
+    register_lemma(w, {"name": "rev_snoc", "pred": "lem_rev_snoc", "induct": "list",
+                       "ih_cons_head": ["acc"], "fuel": 4, "properties": PR})
+    register_lemma(w, {"name": "assoc_good", "pred": "lem_assoc_good", "induct": "list",
+                       "ih_pred": "lem_assoc_good_ih", "fuel": 4, "properties": PR})
+    register_lemma(w, {"name": "lookup_good", "pred": "lem_lookup_good", "induct": "list",
+                       "hints": ["lem_assoc_good(dict_keys(head(rfs)), dict_values(head(rfs)), name)"],
+                       "fuel": 4, "properties": PR})
     for n in ("kh", "kha", "klr", "kld", "klb", "ack"):
         register_lemma(w, {"name": f"proj_{n}", "pred": f"lem_{n}", "induct": "list",
                            "fuel": 4, "hints": hints.get(n, []),
